@@ -16,7 +16,7 @@ from ..values import (Const, Sym, CRef, FRef, ERef, Bound, Obj, Tup, App,
                       New, Raise, walk)
 from ..interp import Interp, Hooks
 from ..effects import Effects
-from ..report import Finding, RuleResult, floor
+from ..report import Finding, RuleResult, floor, Attempts
 
 PROP = 'C16'
 
@@ -469,10 +469,14 @@ def rule_hc45(prog):
 
 
 def run(prog, tier, seed):
-    r1, r2, lookup, reg_fields = rule_hc12(prog)
-    r3 = rule_hc3(prog, lookup, reg_fields) if lookup is not None else \
-        RuleResult('R-HC-3', 'lookup (not found)')
-    r4, r5 = rule_hc45(prog)
+    T = Attempts()
+    r1, r2, lookup, reg_fields = T(rule_hc12, prog, _n=4)
+    if lookup is not None:
+        r3 = T(rule_hc3, prog, lookup, reg_fields)
+    else:
+        r3 = None
+        T.skipped('R-HC-3')
+    r4, r5 = T(rule_hc45, prog, _n=2)
     expl = ('Hash-consing discipline of the BDD nodes, decided on every '
             'path of the constructors: a non-terminal node is allocated '
             'only after `low is not high` and after the unique-table lookup '
@@ -491,4 +495,4 @@ def run(prog, tier, seed):
             'creation (WeakSet run-time semantics).')
     assumptions = ['WeakSet iteration yields exactly the live parents',
                    'single-threaded use', 'no reflection']
-    return [r1, r2, r3, r4, r5], expl, assumptions, {}
+    return T.results(r1, r2, r3, r4, r5), expl, assumptions, T.extra()
